@@ -20,7 +20,7 @@ func streams(prop string) []string {
 	case "c03":
 		return []string{"finding:lockkey.separator", "finding:upsert.pk-listed.unique-changed"}
 	case "c18":
-		return []string{"finding:where.node.func", "finding:where.string-literal", "finding:insert.pk-null-or-zero", "finding:insert.auto-batch", "finding:upsert.pk-listed.unique-changed"}
+		return []string{"finding:where.node.func", "finding:where.string-literal", "finding:upsert.pk-listed.unique-changed"}
 	}
 	return nil
 }
